@@ -155,6 +155,11 @@ func (e *End) SetWriteDeadline(t time.Time) error { return nil }
 //go:norace
 func (e *End) arm(on bool) error { e.armed = on; return nil }
 
+// PendingOut returns how many bytes written from this end the peer has not read (yet).
+//
+//go:norace
+func (e *End) PendingOut() int { return len(e.wr.buf) }
+
 // Sent returns everything written from this end, and who wrote it.
 //
 //go:norace
